@@ -1,5 +1,9 @@
 """C10 — PSBT codec and workflow (DESIGN.md section 3, C10).
 
+O1 embedded transaction, O2 round trip, O3 combiner algebra, O4 threshold / order independence, O5 one invalid partial signature
+(r, s, sighash byte) on a one-input PSBT, O6 partial signatures on every input of a multi-input PSBT (inputs that share their
+public keys included; a PSBT loaded earlier in the same process included): each must be checked against its own input's digest.
+
 Concrete wallets (fixed seeds; BIP32 / EC arithmetic of the shimmed copy runs on plain ints), symbolic data:
 version, locktime, sequences, amounts, sighash-type fields, unknown key-value values, partial-signature bytes.
 S256Point.verify of the shimmed copy is the real routine on concrete arguments (memoised) and the uninterpreted
@@ -44,10 +48,20 @@ META = {
                                   "combine tree; real signatures; global xpubs for n = 2",
                   "O5 invalid signature": "six wallet kinds (1-of-1 / 2-of-2) x UTXO records {as written by update, witness + non-witness}; "
                                           "one partial signature with symbolic r, s (DER shape of the genuine signature), sighash byte in "
-                                          "{0, 1, 2, 3, 0x41, 0x81, 0x82, 0x83, 0xff}"},
+                                          "{0, 1, 2, 3, 0x41, 0x81, 0x82, 0x83, 0xff}",
+                  "O6 signature bound to its input": "six wallet kinds (1-of-1 / 2-of-2), 2 inputs locked to the same public key(s) (one address "
+                                                     "funded twice) or to different ones; cosigner 0's partial signature on EVERY input "
+                                                     "symbolic (r, s of 32 bytes, SIGHASH_ALL; Valid uninterpreted per (key, digest, r, s)), "
+                                                     "equalities between the signatures of different inputs decided by the solver; accepted "
+                                                     "at load only if each one passed a check against the digest of the input it sits on. "
+                                                     "History: the same with another PSBT (same coins, other amount, hence other digests; "
+                                                     "its signatures symbolic too) loaded before in the same process (shared-key pattern)"},
         "thorough": {"O1 embedded tx": "1..3 inputs x 1..3 outputs", "O2 round trip": "all vectors; plus 3-of-3 with 2 inputs, every stage",
                      "O3 combiner": "same groups", "O4 threshold": "as quick, plus 2 inputs for every (m, n) with n > 1 and 3 inputs for every single-key kind",
-                     "O5 invalid signature": "as quick, plus two symbolic signatures on the 2-of-2 wallets"}},
+                     "O5 invalid signature": "as quick, plus two symbolic signatures on the 2-of-2 wallets",
+                     "O6 signature bound to its input": "as quick, plus 3 inputs with key patterns (a,a,a), (a,b,a), (a,a,b), (a,b,b); both cosigners' "
+                                                        "signatures symbolic on the 2-of-2 wallets; UTXO records {as written by update, witness + "
+                                                        "non-witness}; the two-load history for both 2-input key patterns"}},
     "outside": ["n = 4 cosigners and 3-input multisig wallets (cost only: the flows are the same code paths)",
                 "partial signatures on inputs that carry no UTXO record: nothing to verify them against, the library accepts them "
                 "unverified (read as 'cannot be verified', not as 'does not verify')",
@@ -60,6 +74,9 @@ META = {
                 "byte layout of the PSBT maps against BIP174 beyond the embedded transaction: (a) is a re-serialisation property; "
                 "that serialize(parse(raw)) == raw for third-party raw bytes is not claimed (the serialiser drops what it does not keep)",
                 "DER parsing strictness and ECDSA itself (C01/C02): Valid(pubkey, z, r, s) is uninterpreted on symbolic arguments",
+                "O6: sighash bytes other than SIGHASH_ALL on multi-input PSBTs (the sighash byte is O5's subject, on one input); DER shapes "
+                "other than 32-byte r and s; more than two loads in one process; earlier loads of unrelated wallets; whether a PSBT whose "
+                "signatures all verify but which is refused for another reason should load is O2's subject (class 'refused-valid' is not judged)",
                 "sighash digests for hash types other than SIGHASH_ALL are the library's own routines (C05); only *which* digest a "
                 "partial signature is checked against is judged here"],
     "stubs": ["S256Point.verify = Valid(pubkey, z, r, s) uninterpreted when an argument is symbolic, the real routine (memoised) otherwise",
@@ -70,7 +87,13 @@ META = {
                     "the digest committed to by a signature whose sighash byte is not SIGHASH_ALL differs from the SIGHASH_ALL digest "
                     "(the 4-byte hash type is part of the hashed preimage; collision resistance)",
                     "replays substitute real signatures (made with the fixed wallet keys) for signature bytes that a path assumed Valid, "
-                    "and a genuine signature with one bit of s flipped for bytes a path assumed invalid"],
+                    "and a genuine signature with one bit of s flipped for bytes a path assumed invalid",
+                    "O6 replays: a symbolic signature that the path never checked (or found invalid) and that the solver's model makes equal to "
+                    "a signature found valid on another input / in the PSBT loaded before is realised by that other genuine signature (every "
+                    "such candidate is tried); the replay's own oracle then verifies each concrete signature with the native ECDSA routine "
+                    "against the digest of the input it sits on, so an unrealisable model only yields 'not reproduced'",
+                    "O6: a signature made for one input (or for another payment) does not verify for a different input's digest (the outpoint "
+                    "and the outputs are part of the hashed preimage; collision resistance) -- checked concretely in every replay"],
 }
 
 MANIFEST = {"technique": "symbolic execution of the real PSBT parser / serialiser / combiner / finaliser on concrete wallets with symbolic "
@@ -104,6 +127,7 @@ class Mods:
 
 _MODS = {}
 VALID_LOG = []  # decisions of the Valid predicate on the current path
+VALID_LOG_RS = []  # the same decisions with the signature they were about: (ok, sec, z, r, s)
 
 
 def mods(native=False):
@@ -141,6 +165,7 @@ def _install(M):
             return vcache[k]
         ok = bool(valid_pred(self.sec(), z, r, s))
         VALID_LOG.append((ok, self.sec(), z))
+        VALID_LOG_RS.append((ok, self.sec(), z, r, s))
         return ok
     P.verify = verify
 
@@ -315,14 +340,16 @@ def F0(n_in):
             "out_amt": [40000 * n_in, 50000 * n_in]}
 
 
-def prev_tx_of(M, kind, m, n, k, amount):
+def prev_tx_of(M, kind, m, n, k, amount, key=None):
+    """the transaction that funds input k; its first output pays to the wallet's key index `key` (default: k)"""
     T = M.tx
-    spk = wallet_script(M, kind, m, n, k)[0]
+    spk = wallet_script(M, kind, m, n, k if key is None else key)[0]
     return T.Tx(1, [T.TxIn(bytes([0x11 + k]) * 32, k)], [T.TxOut(amount, spk), T.TxOut(1000, M.script.Script([0x6A]))], 0, network="mainnet")
 
 
-def build(M, kind, m, n, n_in, F, xpub=False, validate=True, segwit=False):
-    """create + update through the library's own entry point"""
+def build(M, kind, m, n, n_in, F, xpub=False, validate=True, segwit=False, keys=None):
+    """create + update through the library's own entry point.  keys: key index that input k is locked to (default: k, a new
+    address for every input); equal entries = the same address funded more than once"""
     T = M.tx
     tx_lookup, pubkey_lookup, redeem_lookup, witness_lookup = {}, {}, {}, {}
 
@@ -336,8 +363,9 @@ def build(M, kind, m, n, n_in, F, xpub=False, validate=True, segwit=False):
             witness_lookup[w.sha256()] = w
     tx_ins = []
     for k in range(n_in):
-        spk, r, w, pubs = wallet_script(M, kind, m, n, k)
-        prev = prev_tx_of(M, kind, m, n, k, F["in_amt"][k])
+        key = k if keys is None else keys[k]
+        spk, r, w, pubs = wallet_script(M, kind, m, n, key)
+        prev = prev_tx_of(M, kind, m, n, k, F["in_amt"][k], key)
         tx_lookup[prev.hash()] = prev
         reg(r, w, pubs)
         tx_ins.append(T.TxIn(prev.hash(), 0, sequence=F["seq"][k]))
@@ -354,18 +382,18 @@ def build(M, kind, m, n, n_in, F, xpub=False, validate=True, segwit=False):
                               witness_lookup=witness_lookup, hd_pubs=hd_pubs)
 
 
-def build_lenient(M, kind, m, n, n_in, F, xpub=False):
+def build_lenient(M, kind, m, n, n_in, F, xpub=False, keys=None):
     """(psbt, error of the validating create or None)"""
     try:
-        return build(M, kind, m, n, n_in, F, xpub), None
+        return build(M, kind, m, n, n_in, F, xpub, keys=keys), None
     except Exception as e:
-        return build(M, kind, m, n, n_in, F, xpub, validate=False), "PSBT.create(validate=True) raises " + _msg(e)
+        return build(M, kind, m, n, n_in, F, xpub, validate=False, keys=keys), "PSBT.create(validate=True) raises " + _msg(e)
 
 
-def add_both_utxos(M, p, kind, m, n, F):
+def add_both_utxos(M, p, kind, m, n, F, keys=None):
     """what an updater that supplies the full previous transaction next to the witness UTXO produces"""
     for k, pi in enumerate(p.psbt_ins):
-        pi.prev_tx = prev_tx_of(M, kind, m, n, k, F["in_amt"][k])
+        pi.prev_tx = prev_tx_of(M, kind, m, n, k, F["in_amt"][k], None if keys is None else keys[k])
 
 
 # ---------------------------------------------------------------------------------------- symbolic / concrete field substitution
@@ -1202,12 +1230,12 @@ def make_signed_raw(M, kind, m, n, utxo, nsym):
     return raw, locs, p
 
 
-def digest_for(M, p, kind, hash_type):
-    """the library-independent part is only *which* digest: the one for the signature's own sighash byte"""
-    pi = p.psbt_ins[0]
+def digest_for(M, p, kind, hash_type, k=0):
+    """the library-independent part is only *which* digest: the one of input k for the signature's own sighash byte"""
+    pi = p.psbt_ins[k]
     if kind in SEGWIT_KINDS:
-        return p.tx_obj.sig_hash_bip143(0, pi.redeem_script, pi.witness_script, hash_type=hash_type)
-    return p.tx_obj.sig_hash_legacy(0, pi.redeem_script, hash_type=hash_type)
+        return p.tx_obj.sig_hash_bip143(k, pi.redeem_script, pi.witness_script, hash_type=hash_type)
+    return p.tx_obj.sig_hash_legacy(k, pi.redeem_script, hash_type=hash_type)
 
 
 SIGHASH_BYTES = (0, 1, 2, 3, 0x81, 0x82, 0x83, 0x41, 0xFF)
@@ -1296,6 +1324,193 @@ def replay_badsig(w):
                         f"accepted at load={accepted}"}
 
 
+# ---------------------------------------------------------------------------------------- O6 every partial signature is bound to its own input
+
+def make_signed_raw_multi(M, kind, m, n, keys, utxo, nsym, variant=0):
+    """serialised PSBT whose input k is locked to key index keys[k] (equal entries: one address funded several times) with the
+    genuine partial signatures of the first nsym cosigners on every input, and where those are: [(k, i, offset of the
+    length-prefixed value, signature)].  variant > 0: another payment from the same coins (the paid amount differs, hence every digest)"""
+    n_in = len(keys)
+    F = F0(n_in)
+    F["out_amt"][0] -= variant
+    p, err = build_lenient(M, kind, m, n, n_in, F, keys=keys)
+    both = utxo == "both" and kind in SEGWIT_KINDS
+    if both:
+        add_both_utxos(M, p, kind, m, n, F, keys)
+    sign_first(M, p, n, nsym)
+    if kind == "p2sh-p2wpkh":
+        # without the BIP32 derivation records (see make_signed_raw)
+        for x in list(p.psbt_ins) + list(p.psbt_outs):
+            x.named_pubs = {}
+    raw = p.serialize()
+    if both:
+        # keep both UTXO records of every input in the bytes (the library's serialiser writes only one)
+        sers = [x.serialize() for x in p.psbt_ins]
+        start = len(raw) - sum(len(x) for x in sers) - sum(len(x.serialize()) for x in p.psbt_outs)
+        spliced = b""
+        for pi, ser in zip(p.psbt_ins, sers):
+            first = spec_varstr(b"\x00") + spec_varstr(pi.prev_tx.serialize())
+            assert ser[:len(first)] == first
+            extra = spec_varstr(b"\x01") + spec_varstr(pi.prev_out.serialize())
+            if ser[len(first):len(first) + len(extra)] != extra:
+                ser = first + extra + ser[len(first):]
+            spliced += ser
+        assert raw[start:start + len(sers[0])] == sers[0]
+        raw = raw[:start] + spliced + raw[start + sum(len(x) for x in sers):]
+    locs = []
+    for k, pi in enumerate(p.psbt_ins):
+        for i in range(nsym):
+            sig = pi.sigs[named(M, i, "m/0/%d" % keys[k]).sec()]
+            assert raw.count(spec_varstr(sig)) == 1
+            locs.append((k, i, raw.find(spec_varstr(sig)), sig))
+    return raw, sorted(locs, key=lambda x: x[2]), p
+
+
+def splice_sigs(raw, locs, sigs):
+    """raw with the length-prefixed signature at every location replaced by the corresponding entry of sigs"""
+    out, pos = b"", 0
+    for (k, i, off, sig), new in zip(locs, sigs):
+        out = out + raw[pos:off] + spec_varint(len(new)) + new
+        pos = off + len(spec_varstr(sig))
+    return out + raw[pos:]
+
+
+SIGBIND_LABEL = "partial signature accepted at load without a successful check of that signature against the digest of its own input"
+
+
+def _sigbind_path(kind, m, n, keys, utxo, nsym, loads):
+    """every partial signature of the first nsym cosigners on every input is symbolic (r, s; SIGHASH_ALL); the solver is free to
+    make signatures of different inputs / cosigners / loads equal.  Loading must check every one of them against the digest of
+    the input it sits on."""
+    M = mods()
+    val = SymVals()
+    slots, raws = [], []
+    for ld in range(loads):
+        # the last load is the wallet's PSBT; the loads before it are other payments from the same coins
+        raw, locs, p = make_signed_raw_multi(M, kind, m, n, keys, utxo, nsym, variant=loads - 1 - ld)
+        ders = []
+        for (k, i, off, sig) in locs:
+            name = f"L{ld}.in{k}.sig{i}"
+            rb, sb = val(name + ".r", 32, True), val(name + ".s", 32, True)
+            ders.append(bytes([0x30, 68, 2, 32]) + rb + bytes([2, 32]) + sb + bytes([SIGHASH_ALL]))
+            z = digest_for(M, p, kind, SIGHASH_ALL, k)
+            assert _plain(z)
+            slots.append({"load": ld, "k": k, "i": i, "name": name, "sec": named(M, i, "m/0/%d" % keys[k]).sec(), "z": z,
+                          "r": core.int_from_bytes(rb), "s": core.int_from_bytes(sb)})
+        raws.append(splice_sigs(raw, locs, ders))
+    logs = []
+
+    def entries(sl):
+        return [e for e in logs[sl["load"]] if e[1] == sl["sec"] and _plain(e[2]) and e[2] == sl["z"]]
+
+    def w(env):
+        vals = val.witness(env)
+        status = []
+        for sl in slots:
+            st = "unchecked"
+            if sl["load"] < len(logs):
+                for (ok, _, _, er, es) in entries(sl):
+                    if conc_value(er, env) == conc_value(sl["r"], env) and conc_value(es, env) == conc_value(sl["s"], env):
+                        st = "valid" if ok else "invalid"
+            status.append(st)
+        out = []
+        for a, sl in enumerate(slots):
+            same = []
+            if status[a] != "valid":
+                # the same bytes as signatures that this path took to be valid where they sit: the replay puts such a genuine one here
+                # (the model may make more signatures equal than the path needs, so every candidate is kept)
+                same = [b for b, o in enumerate(slots) if b != a and status[b] == "valid" and
+                        all(vals[o["name"] + x] == vals[sl["name"] + x] for x in (".r", ".s"))]
+            out.append({"load": sl["load"], "k": sl["k"], "i": sl["i"], "status": status[a], "same_as": same})
+        return {"wallet": kind, "m": m, "n": n, "keys": list(keys), "utxo": utxo, "nsym": nsym, "loads": loads, "slots": out, "vals": vals}
+
+    outcome = []
+    for ld in range(loads):
+        del VALID_LOG[:]
+        del VALID_LOG_RS[:]
+        try:
+            M.psbt.PSBT.parse(M.BytesIO(raws[ld]))
+            accepted = True
+        except Exception:
+            accepted = False
+        logs.append(list(VALID_LOG_RS))
+        mine = [sl for sl in slots if sl["load"] == ld]
+        if not accepted:
+            if len(logs[ld]) >= len(mine) and all(e[0] for e in logs[ld]):
+                outcome.append("refused-valid")  # refused for another reason (an unloadable shape: O2)
+            else:
+                check(True, "refused with an invalid signature")
+                outcome.append("rejected")
+            break
+        for sl in mine:
+            cands = [core.s_and(e[3] == sl["r"], e[4] == sl["s"]) for e in entries(sl) if e[0]]
+            check(core.s_or(*cands) if cands else False, SIGBIND_LABEL, witness=w)
+        outcome.append("accepted")
+    return "+".join(outcome)
+
+
+def ob_sigbind(kind, m, n, keys, utxo, nsym, loads):
+    mr = sym_run(lambda: _sigbind_path(kind, m, n, keys, utxo, nsym, loads), max_violations=4)
+    mr["sample"] = {"wallet": f"{kind} {m}-of-{n}", "inputs": len(keys), "key index of each input": list(keys), "utxo_records": utxo,
+                    "loads in one process": loads,
+                    "symbolic": f"r, s of {nsym} partial signature(s) on every input of every load (Valid uninterpreted, SIGHASH_ALL); "
+                                "equalities between them are the solver's choice"}
+    if len(mr["violations"]) >= 4:
+        mr["sample"]["note"] = "exploration stopped after 4 violation candidates"
+        return mr
+    if not mr["violations"]:
+        for e in ["+".join(["accepted"] * loads)] + ["+".join(["accepted"] * j + ["rejected"]) for j in range(loads)]:
+            if repr(e) not in mr["classes"]:
+                mr["inconclusive"].append(f"reachability twin: outcome {e!r} never reached")
+    return mr
+
+
+def replay_sigbind(w):
+    """every slot gets concrete bytes that respect what the path assumed: its own genuine signature where the path found it valid;
+    the genuine signature of another slot where the model made the bytes equal to a signature that was valid there (every such
+    choice is tried); otherwise its own genuine signature with one bit of s flipped.  Independent oracle: does each verify for the
+    SIGHASH_ALL digest of the input it sits on (key of its own slot), and is the PSBT accepted?"""
+    M = mods(True)
+    kind, keys = w["wallet"], w["keys"]
+    made = [make_signed_raw_multi(M, kind, w["m"], w["n"], keys, w["utxo"], w["nsym"], variant=w["loads"] - 1 - ld) for ld in range(w["loads"])]
+    genuine = {(ld, k, i): sig for ld, (_, locs, _) in enumerate(made) for (k, i, off, sig) in locs}
+    head = f"{kind} {w['m']}-of-{w['n']}, inputs locked to key indices {keys}, utxo={w['utxo']}: "
+    last = ""
+    for choice in itertools.islice(itertools.product(*[(x["same_as"] or [None]) for x in w["slots"]]), 64):
+        src_of = dict(zip([(x["load"], x["k"], x["i"]) for x in w["slots"]], choice))
+        notes = []
+        for ld in range(w["loads"]):
+            raw, locs, p = made[ld]
+            sigs, bad = [], []
+            for (k, i, off, sig) in locs:
+                sl = [x for x in w["slots"] if (x["load"], x["k"], x["i"]) == (ld, k, i)][0]
+                if sl["status"] == "valid":
+                    new, what = sig, "own"
+                elif src_of[(ld, k, i)] is not None:
+                    src = w["slots"][src_of[(ld, k, i)]]
+                    new, what = genuine[(src["load"], src["k"], src["i"])], f"the signature of input {src['k']} cosigner {src['i']}" + \
+                        (f" of the PSBT loaded before (load {src['load']})" if src["load"] != ld else "")
+                else:
+                    new, what = sig[:-2] + bytes([sig[-2] ^ 1]) + sig[-1:], "own with one bit of s flipped"
+                z = digest_for(M, p, kind, SIGHASH_ALL, k)
+                if not bool(named(M, i, "m/0/%d" % keys[k]).point.verify(z, M.ecc.Signature.parse(new[:-1]))):
+                    bad.append(f"input {k} cosigner {i} carries {what}")
+                sigs.append(new)
+            try:
+                M.psbt.PSBT.parse(M.BytesIO(splice_sigs(raw, locs, sigs)))
+                accepted = True
+            except Exception:
+                accepted = False
+            notes.append(f"load {ld}: " + ("every partial signature verifies for its own input" if not bad else
+                                           "not verifying for its own input: " + "; ".join(bad)) + f", accepted={accepted}")
+            if accepted and bad:
+                return {"violated": True, "observed": head + " | ".join(notes)}
+            if not accepted:
+                break
+        last = " | ".join(notes)
+    return {"violated": False, "observed": head + last}
+
+
 # ---------------------------------------------------------------------------------------- registry
 
 def obligations(tier):
@@ -1360,4 +1575,15 @@ def obligations(tier):
             obs.append(Ob("O5-badsig", ob_badsig, {"kind": kind, "m": mn[0], "n": mn[1], "utxo": utxo, "nsym": 1}, replay="badsig", budget_s=900))
             if not q and kind not in SINGLE:
                 obs.append(Ob("O5-badsig", ob_badsig, {"kind": kind, "m": 2, "n": 2, "utxo": utxo, "nsym": 2}, replay="badsig", budget_s=900))
+    for kind in KINDS:
+        mn = (1, 1) if kind in SINGLE else (2, 2)
+        patterns = [(0, 0), (0, 1)] if q else [(0, 0), (0, 1), (0, 0, 0), (0, 1, 0), (0, 0, 1), (0, 1, 1)]
+        for keys in patterns:
+            for utxo in (("update", "both") if kind in SEGWIT_KINDS and not q else ("update",)):
+                for nsym in ((1,) if q or kind in SINGLE else (1, 2)):
+                    for loads in (1, 2):
+                        if loads == 2 and ((q and keys != (0, 0)) or len(keys) > 2 or utxo == "both"):
+                            continue
+                        obs.append(Ob("O6-sigbind", ob_sigbind, {"kind": kind, "m": mn[0], "n": mn[1], "keys": keys, "utxo": utxo, "nsym": nsym,
+                                                                 "loads": loads}, replay="sigbind", budget_s=900))
     return obs
